@@ -167,7 +167,8 @@ Prob(gv) == [n |-> n, given |-> gv,
 (* Two reference completions.  Style "A": glyphs served in increasing      *)
 (* order, invalid given names dropped, shortest glyph-list spelling,       *)
 (* ".<k>" variants, rule passes repeated to a fixed point, "ornNNN"        *)
-(* placeholders.  Style "B": decreasing order, any non-empty given name    *)
+(* placeholders ("X" = "A" with a faulty ligature branch, see BugAccepted). *)
+(* Style "B": decreasing order, any non-empty given name    *)
 (* kept, longest spelling, ".alt<k>" variants (also of taken glyph-list    *)
 (* names), one pass over the rules in reverse, "glyph<k>" placeholders.    *)
 Dec(k)  == IF k < 10 THEN <<48 + k>> ELSE <<48 + (k \div 10), 48 + (k % 10)>>
@@ -180,21 +181,21 @@ FirstFree(cand(_), used) ==
 
 Shortest(S) == CHOOSE x \in S : \A y \in S : Len(x) <= Len(y)
 Longest(S)  == CHOOSE x \in S : \A y \in S : Len(x) >= Len(y)
-Primary(c, st) == IF Listed(c) = {} THEN (IF st = "A" THEN UName(c) ELSE UniName(c))
-                  ELSE IF st = "A" THEN Shortest(Listed(c)) ELSE Longest(Listed(c))
+Primary(c, st) == IF Listed(c) = {} THEN (IF st # "B" THEN UName(c) ELSE UniName(c))
+                  ELSE IF st # "B" THEN Shortest(Listed(c)) ELSE Longest(Listed(c))
 PrimaryText(t, st) == Join([k \in 1..Len(t) |-> Primary(t[k], st)])
 
-VariantK(base, k, st) == IF st = "A" THEN base \o <<Dot>> \o Dec(k)
+VariantK(base, k, st) == IF st # "B" THEN base \o <<Dot>> \o Dec(k)
                          ELSE base \o <<Dot, 97, 108, 116>> \o Dec(k)
 
-Order(P, st) == IF st = "A" THEN [k \in 1..P.n |-> k - 1] ELSE [k \in 1..P.n |-> P.n - k]
+Order(P, st) == IF st # "B" THEN [k \in 1..P.n |-> k - 1] ELSE [k \in 1..P.n |-> P.n - k]
 
 RefKeep(P, st) ==
   [k \in 1..P.n |->
      LET g == k - 1  x == P.given[k] IN
      IF g = 0 THEN NOTDEF
      ELSE IF /\ x # <<>> /\ x # NOTDEF
-             /\ (st = "A" => ValidName(x))
+             /\ (st # "B" => ValidName(x))
              /\ \A h \in 1..g-1 : Nm(P.given, h) # x
              /\ (st = "B" => Nm(P.given, 0) # x)
           THEN x ELSE <<>>]
@@ -204,7 +205,7 @@ RefText(P, st, res0) ==
      IF Nm(res, g) # <<>> \/ Nm(P.texts, g) = {} THEN res
      ELSE LET free == {PrimaryText(t, st) : t \in Nm(P.texts, g)} \ UsedIn(res) IN
           IF free # {} THEN [res EXCEPT ![g + 1] = Shortest(free)]
-          ELSE IF st = "A" THEN res
+          ELSE IF st # "B" THEN res
           ELSE LET b == Shortest({PrimaryText(t, st) : t \in Nm(P.texts, g)}) IN
                [res EXCEPT ![g + 1] = FirstFree(LAMBDA k : VariantK(b, k + 1, st), UsedIn(res))],
      res0, Order(P, st))
@@ -212,7 +213,8 @@ RefText(P, st, res0) ==
 RulePass(P, st, res0) ==
   FoldLeft(LAMBDA res, q :
      LET rule == P.rules[q] IN
-     IF Nm(res, rule.dst) # <<>> \/ \E k \in 1..Len(rule.src) : Nm(res, rule.src[k]) = <<>>
+     IF \/ Nm(res, rule.dst) # <<>> /\ ~(st = "X" /\ rule.t = 4)
+        \/ \E k \in 1..Len(rule.src) : Nm(res, rule.src[k]) = <<>>
        THEN res
        ELSE LET base == IF rule.t = 4 THEN Join([k \in 1..Len(rule.src) |-> Nm(res, rule.src[k])]) ELSE Nm(res, rule.src[1])
                 first == IF rule.t = 4 THEN 0 ELSE 1
@@ -220,18 +222,18 @@ RulePass(P, st, res0) ==
                   FirstFree(LAMBDA k : IF k + first = 0 THEN base ELSE VariantK(base, k + first, st),
                             UsedIn(res))],
      res0,
-     IF st = "A" THEN [q \in 1..Len(P.rules) |-> q]
+     IF st # "B" THEN [q \in 1..Len(P.rules) |-> q]
                  ELSE [q \in 1..Len(P.rules) |-> Len(P.rules) + 1 - q])
 
 RefRules(P, st, res0) ==
-  IF st = "A" THEN FoldLeft(LAMBDA res, round : RulePass(P, st, res), res0, [k \in 1..P.n |-> k])
+  IF st # "B" THEN FoldLeft(LAMBDA res, round : RulePass(P, st, res), res0, [k \in 1..P.n |-> k])
               ELSE RulePass(P, st, res0)
 
 RefFill(P, st, res0) ==
   FoldLeft(LAMBDA res, g :
      IF Nm(res, g) # <<>> THEN res
      ELSE [res EXCEPT ![g + 1] =
-             FirstFree(LAMBDA k : IF st = "A" THEN <<111, 114, 110>> \o Dec3(k + 1)
+             FirstFree(LAMBDA k : IF st # "B" THEN <<111, 114, 110>> \o Dec3(k + 1)
                                   ELSE <<103, 108, 121, 112, 104>> \o Dec(k + 1),
                        UsedIn(res))],
      res0, Order(P, st))
@@ -261,6 +263,11 @@ Refuses ==
           /\ ~Law(P, [k \in 1..n |-> <<>>])
           /\ n > 1 => ~Law(P, [k \in 1..n |-> NOTDEF])
           /\ ~Law(P, [k \in 1..n+1 |-> Own(k)])
+
+\* The law has teeth on the model: style "X" is style "A" whose ligature branch names its target
+\* even if the target already has a name (the shape of names.go:161).  TLC is EXPECTED to find a
+\* description on which X is refused (NamesBug.cfg; the orchestrator fails if it finds none).
+BugAccepted == done => LET P == Prob(Pad(Names, n)) IN Law(P, Ref(P, "X"))
 
 CaseRec == [n |-> n, kind |-> kind, names |-> Names, cmap |-> cm, rules |-> rules,
             d1 |-> d1, cm12 |-> cm12]
